@@ -64,19 +64,57 @@ def expected(t, op, v, dst, data):
     return contract(t, op if op not in ('walk_dir',) else 'read_dir', v, data=data)
 
 
+def run_transfer(ex, sr, t, ctls, arm, op, src, dst, counts, findings):
+    """copy_file / move_file / copy_dir / move_dir on one instance under a fault"""
+    from .transfer import transfer_contract
+    u = t.u
+    before = {c: sr.ctls[c].count for c in ctls}
+    if arm is not None:
+        sr.do('arm %s %d' % arm)
+    out = sr.do('%s %s %s' % (op, src, dst))
+    o = sr.last
+    for c in ctls:
+        counts[c] = max(counts.get(c, 0), sr.ctls[c].count - before[c])
+    if arm is None:
+        return findings
+    fired = sr.ctls[arm[0]].fired
+    sr.do('disarm %s' % arm[0])
+    if not fired:
+        return findings
+    key = 'plain|%s|src=%s|dst=%s|fault@underlying' % (op, target_class(t, src), target_class(t, dst))
+    if o.tag in ('panic', 'deadlock'):
+        findings.append(make_finding('C20', key + '|panic:%s' % (o.where or '?'), '%s panics when underlying call #%d fails: %s' % (op, arm[1], o.msg), sr))
+        return findings
+    status, nts, ntd, ret, why = transfer_contract(op, t, t, src, dst, True)
+    if o.ok:
+        if status == 'err':
+            findings.append(make_finding('C20', key + '|success_instead_of_contract_error', '%s returned Ok under a fault although %s' % (op, why), sr))
+        elif status == 'ok':
+            nf = len(findings)
+            check_post_state(sr, u, nts, key, findings, 'partial_effect_reported_as_success', prop='C20')
+            findings[nf:] = [f_ for f_ in findings[nf:] if ':foreign' not in f_.key]
+            if op == 'copy_dir' and o.value != ret:
+                findings.append(make_finding('C20', key + '|wrong_count_reported_as_success', 'copy_dir returned %s under a fault, %d entries were to be copied' % (o.value, ret), sr))
+    return findings
+
+
 def run_fault_case(prog, params):
     res = CaseResult()
     res.states = 1
     u = UNIVERSES[params['universe']]()
     config, state = params['config'], params['state']
-    for (op, v) in params['ops']:
+    for item in params['ops']:
+        op, v = item[0], item[1]
+        dst = item[2] if len(item) > 2 else None
         # ---- pass 1: fault-free run, count the calls reaching each underlying filesystem
         counts = {}
 
-        def run(ex, arm=None, op=op, v=v):
+        def run(ex, arm=None, op=op, v=v, dst=dst):
             findings = []
             sr = ScriptRunner(ex)
             t, ctls, lowers = build(sr, u, config, state)
+            if dst is not None:
+                return run_transfer(ex, sr, t, ctls, arm, op, v, dst, counts, findings)
             # fault-free pre-history (e.g. removals that leave overlay markers behind); the model follows the contract
             for (pop, pv) in params.get('pre', ()):
                 pe = contract(t, pop, pv)
@@ -111,6 +149,14 @@ def run_fault_case(prog, params):
             if o.tag in ('panic', 'deadlock'):
                 findings.append(make_finding('C20', key + '|panic:%s' % (o.where or '?'), '%s panics when underlying call #%d fails: %s' % (op, arm[1], o.msg), sr))
                 return findings
+            if 'C12' in params.get('props', ()) and o.tag == 'err' and o.path is not None:
+                pth = S(o.path)
+                if pth.is_concrete() and bytes(pth) == b'PATH NOT FILLED BY VFS LAYER':
+                    findings.append(make_finding('C12', key + '|placeholder:%s' % op, '%s returns the injected failure with the unfilled placeholder as its path' % op, sr))
+                elif pth.is_concrete():
+                    mine = bytes(sr.w.as_str(sr.paths[v]))
+                    if not (bytes(pth) == mine or mine.startswith(bytes(pth) + b'/') or bytes(pth).startswith(mine + b'/') or (mine == b'' )):
+                        findings.append(make_finding('C12', key + '|foreign_path:%s' % op, '%s on %r returns an error naming %r' % (op, mine, bytes(pth)), sr))
             exp = contract(t, 'read_dir' if op == 'walk_dir' else op, v, data=data)
             if o.ok and op == 'walk_dir':
                 items = o.value
